@@ -77,7 +77,8 @@ def design(ctx: Ctx) -> None:
     ctx._account("Literals(as coded)", res, "design-what-if")  # noqa: SLF001
     violated = sorted({v.name for v in res.violations})
     ctx.notes["as_coded_model_violates"] = violated
-    need = {"RenderNeverFails", "AssertionHoldsOnObservedValue", "RoundTrip", "RenderedLiteralIsValidPython"}
+    # after the repairs of 2026-09-22 only A_nan and A_enum_scope remain as coded deviations
+    need = {"AssertionHoldsOnObservedValue"}
     if not need <= set(violated):
         raise MachineryError(f"as-coded design variant no longer exhibits {sorted(need - set(violated))}")
 
